@@ -170,6 +170,9 @@ Touched(n) == CASE n = "renumber_particles" -> {"sid"}
                 [] n = "merge_dropdup" -> {"obj"}
                 [] OTHER -> {}
 
+\* Frame conditions.  A call computes A' from (A, B, parameters) only: B, the parameter values and every table an
+\* earlier call returned are not state of this step, so no action can change them (B' = B below; in the trace
+\* specification the observed counterparts are C08_ArgumentsUntouched and C08_EarlierResultsUntouched).
 C08_TagsIntact == [][~OpIs("fork") /\ ~OpIs("finish") /\ ~OpIs("redraw") => TagsIntact(Pool, Touched(op'.name), A') /\ B' = B]_vars
 
 C08_SubsetExact == [][OpIs("subset") => SubsetExact(A, op'.f, op'.vals, A')]_vars
